@@ -250,6 +250,12 @@ func (x *Exec) evalSpecIndex(st *State, e *ast.IndexExpr) *Value {
 			}
 			return x.selectElem(base, idxV.scalar(), u.Elem())
 		}
+		if u.Len() == refMapLen {
+			if idxV.L == nil { // nil
+				return x.selectElem(base, x.b.Int(0), u.Elem())
+			}
+			return x.selectElem(base, idxV.scalar(), u.Elem())
+		}
 		return x.selectElem(base, x.toIndex(st, idxV), u.Elem())
 	case *types.Basic:
 		if base.L == nil {
@@ -519,6 +525,26 @@ func (x *Exec) evalSpecCall(st *State, e *ast.CallExpr) *Value {
 		}
 		k := x.coerce(st, x.eval(st, e.Args[1]), u.Key())
 		return scalarV(boolT, x.mapHas(st, m, u, k))
+	case "visited":
+		// visited(k): k was already taken by the innermost enclosing range over a map
+		if len(x.visitedVars) == 0 || len(e.Args) != 1 {
+			x.fail("spec: visited(k) outside a range over a map with int or string keys")
+			return x.constInt(0)
+		}
+		vv := st.env[x.visitedVars[len(x.visitedVars)-1]]
+		kv := x.eval(st, e.Args[0])
+		if vv == nil {
+			x.fail("spec: visited set not in scope")
+			return x.constInt(0)
+		}
+		if kv.L == nil {
+			if vv.L["arr"].Sort.Idx == StrSort {
+				kv = x.convertConst(kv, types.Typ[types.String])
+			} else {
+				kv = x.convertConst(kv, types.Typ[types.Int])
+			}
+		}
+		return scalarV(boolT, x.b.Select(vv.L["arr"], kv.scalar()))
 	case "mapunion", "mapinter":
 		// pointwise union / intersection of two ghost string sets (strmapof:bool)
 		av := x.eval(st, e.Args[0])
@@ -544,12 +570,12 @@ func (x *Exec) evalSpecCall(st *State, e *ast.CallExpr) *Value {
 		// mapset(m, k, v): the ghost string map m with k bound to v
 		mv := x.eval(st, e.Args[0])
 		at, ok := mv.T.Underlying().(*types.Array)
-		if !ok || at.Len() != strMapLen || len(e.Args) != 3 {
-			x.fail("spec: mapset needs a ghost string map, a key and a value")
+		if !ok || (at.Len() != strMapLen && at.Len() != refMapLen) || len(e.Args) != 3 {
+			x.fail("spec: mapset needs a ghost string/reference map, a key and a value")
 			return x.constInt(0)
 		}
 		kv := x.eval(st, e.Args[1])
-		if kv.L == nil {
+		if kv.L == nil && at.Len() == strMapLen {
 			kv = x.convertConst(kv, types.Typ[types.String])
 		}
 		nv := x.coerce(st, x.eval(st, e.Args[2]), at.Elem())
